@@ -112,7 +112,7 @@ def prob_of_condition(cond, prog, params):
         found = [st for st in prog.body if st[0] == "assign" and st[1] == v]
         nested = [st for st in _all_assigns(prog.body) if st[1] == v]
         if len(found) != 1 or len(nested) != 1 or len(found[0]) > 3 or found[0][2][0] != "draw" or found[0][2][1] != "Uniform":
-            return None
+            return _prob_by_engine(cond, prog, params, vs)
         try:
             a, b = [eval_expr(e, dict(params)) for e in found[0][2][2]]
         except Exception:
@@ -154,6 +154,51 @@ def prob_of_condition(cond, prog, params):
                 pr *= w
             tot += pr
     return tot
+
+
+def _prob_by_engine(cond, prog, params, vs):
+    """P(cond) at the position of the first if-statement of the source body that tests all variables of cond, for
+    conditions over variables computed from draws (w = u + c): the unconditional top-level prefix of the body is run
+    once by the reference engine with an indicator appended.  None when outside this shape / the engine."""
+    from ..lang.ast import cond_vars, num, walk_stmts
+    from ..ref.engine import Engine, Unsupported, CapExceeded, DomainError
+    from ..ref import laws
+    prefix = []
+    hit = False
+    for st in prog.body:
+        if st[0] == "if":
+            tested = set()
+            for c, _ in st[1]:
+                cond_vars(c, tested)
+            if set(vs) <= tested:
+                hit = True
+                break
+            return None  # an earlier if-statement could reassign: outside the shape
+        prefix.append(st)
+    if not hit:
+        return None
+    pvars = {s_[1] for s_ in prefix if s_[0] == "assign"}
+    if not set(vs) <= pvars:
+        return None
+    # iteration independence: nothing in the prefix reads a variable that is not assigned earlier in the prefix
+    from ..lang.ast import rhs_vars
+    seen = set()
+    for st in prefix:
+        if st[0] != "assign" or len(st) > 3:
+            return None
+        if not rhs_vars(st[2]) <= seen | set(params):
+            return None
+        seen.add(st[1])
+    ind = "ind_prob_"
+    body = prefix + [("if", [(cond, [("assign", ind, ("poly", num(1)))])], [("assign", ind, ("poly", num(0)))])]
+    init = [("assign", v, ("poly", num(0))) for v in sorted(pvars)] + [("assign", ind, ("poly", num(0)))]
+    try:
+        eng = Engine(Program([], init, ("true",), body), params, {}, max_states=5000)
+        d = eng.run(1)
+        val = eng.moment(d[1], {ind: 1})
+    except (Unsupported, CapExceeded, DomainError, laws.Divergent, KeyError):
+        return None
+    return val if isinstance(val, Fraction) else None
 
 
 def _all_assigns(stmts):
